@@ -35,7 +35,36 @@ pub fn check(choices: &Vec<u16>, fail: bool) -> Out {
     Ok(diff::info_for(&g, &outcome, nontrivial))
 }
 
+/// programs that end with k items on the stack, k around the largest number StackOutputs can
+/// hold: whatever the VM answers, it is an answer (outputs or an error), not a panic, and up to the
+/// limit the items come back in LIFO order
+pub fn check_deep_final(ctx: &Ctx) {
+    let ks: Vec<usize> = vec![17, 1000, 65_519, 65_520, 65_521, 70_000];
+    ctx.run_list("deep-final-stack", &ks, |&k| {
+        // k pushes on top of the 16 zeros: final depth 16 + k
+        let src = format!("begin repeat.{} push.7 end end", k);
+        let case = crate::vm::Case { src: src.clone(), ..crate::vm::Case::default() };
+        let cj = serde_json::json!({"case": case.to_json(), "final_depth": 16 + k});
+        let program = match crate::vm::assemble(&case, false) {
+            crate::vm::Assembled::Ok(p) => p,
+            _ => return Err(crate::engine::Viol::new("C05:setup", "repeat program does not assemble", cj)),
+        };
+        match crate::vm::run(&program, &case, processor::ExecutionOptions::default()) {
+            crate::vm::Ran::Panic(p) => Err(crate::engine::Viol::new(format!("C05:exec-panic:{}", diff::panic_site(&p)), format!("a program ending with {} stack items makes the VM panic: {p}", 16 + k), cj)),
+            crate::vm::Ran::Err(_, _) => Ok(crate::engine::Info { nontrivial: Some(k as u64), classes: vec!["deep-final-stack:error".into()], ..crate::engine::Info::default() }),
+            crate::vm::Ran::Ok(t, _) => {
+                let out = crate::vm::outputs_top_first(&t);
+                if out.len() != 16 + k || out.iter().take(k).any(|v| *v != 7) || out.iter().skip(k).any(|v| *v != 0) {
+                    return Err(crate::engine::Viol::new("C05:deep-final-stack", format!("{} items expected at the end ({} sevens over 16 zeros), got {}", 16 + k, k, out.len()), cj));
+                }
+                Ok(crate::engine::Info { nontrivial: Some(k as u64), classes: vec!["deep-final-stack:ok".into()], ..crate::engine::Info::default() })
+            }
+        }
+    });
+}
+
 pub fn run(ctx: &Ctx) {
+    check_deep_final(ctx);
     ctx.set_rule("programs = straight-line sequences of field/comparison/ext2/u32/stack/push/env instructions generated against the from-the-docs model with boundary operands and initial stacks of depth 0..40; non-trivial = >= 3 distinct instructions; distinct by (instruction set, outcome)");
     ctx.run("seq", ctx.n(20_000, 1_000_000), || vec(any::<u16>(), 10..400), |c| check(c, false));
     ctx.run("fail", ctx.n(8_000, 400_000), || vec(any::<u16>(), 10..300), |c| check(c, true));
